@@ -1,5 +1,5 @@
 \* exhaustive design model, quick: <=2 columns from 24 header instances x <=2 rows, 3 columns from 6
-\* x 2 rows, 2 columns from 6 x 3 rows (all emptiness patterns), 8 five-column layouts x 3 rows x
+\* x 2 rows, 2 columns from 6 x 3 rows (all emptiness patterns), formula with element.O / element.Pt in every order, 10 five-column layouts x 3 rows x
 \* 216 structured patterns
 SPECIFICATION Spec
 CONSTANTS
